@@ -53,8 +53,9 @@ class C10(PropBase):
     rule = ("case = input bytes (run-length encoded) + reader schedule (sizes of successive read() results); exhaustive: every single "
             "split point of generated files <= 2 KiB and of the corpus witnesses, 1-byte trickle; random: chunk sizes around "
             "5/10/20/40/80/160 KiB on files with lines up to 80 KiB-1, fixed chunk sizes, tiny chunks; non-trivial = the schedule "
-            "splits the input at least once and the input has >= 3 lines; distinct = distinct case lines")
-    trusted_base = [t.replace("vm_compute only in the non-vacuity Examples", "vm_compute in the non-vacuity Examples and in the witness theorems c10_bound_is_tight / c10_band_top_dependent / c10_old_refill_refuted") for t in G.TRUSTED] + ["parse_async: a model of its own since round 5 (C10/Stream.v: the body of the reqwest::Response is a script of chunks of "
+            "splits the input at least once and the input has >= 3 lines; distinct = distinct case lines; optional third section = body script of "
+            "parse_async (chunk sizes, 0 = empty chunk, E = failure); segment tF<k> = the k-th read() of the sync reader fails")
+    trusted_base = [t.replace("vm_compute only in the non-vacuity Examples", "vm_compute in the non-vacuity Examples and in the witness theorems c10_bound_is_tight / c10_band_top_dependent / c10_old_refill_refuted (c10_band_everywhere_dependent is proved symbolically: lia / ring_simplify, no vm_compute)") for t in G.TRUSTED] + ["parse_async: a model of its own since round 5 (C10/Stream.v: the body of the reqwest::Response is a script of chunks of "
                                 "any size incl. empty ones and of failures); the harness builds a reqwest::Response whose body is a scripted "
                                 "http_body::Body (data frames incl. empty ones, an Err frame) and compares result, table, callback bytes/calls and "
                                 "callback slice lengths with run_stream; the refill block is regenerated from its source (translate/c10_stream.py, "
@@ -85,15 +86,27 @@ class C10(PropBase):
                 "both witnesses replayed on the real code. Defect F-C10c (an empty body chunk ended parse_async early: Ok with a truncated "
                 "table) found by this model, reproduced on the real code, fixed in /repo; c10_old_refill_refuted states it on the model of "
                 "the old loop. The correspondence runs the real parse_async on scripted bodies (every prefix length x {empty chunk, failure}, "
-                "random chunkings with empty chunks) against run_stream; the oracle judges failing bodies without the model.",
+                "random chunkings with empty chunks) against run_stream; the oracle judges failing bodies without the model. "
+                "Second pass: the interior of the 80..160 KiB band is proved: under every reader whose read() calls return at most 80 KiB "
+                "(and every body whose chunks are at most 80 KiB) every input with lines < 160 KiB gives the schedule-free verdict "
+                "(c10_fine_reads_exact, c10_stream_fine_chunks_exact: a line is dropped only when ONE read of >= 80 KiB + 1 fills the 160 KiB "
+                "buffer), and for EVERY line length in the band and every recogniser the file A/B/A'/X (|A| = |A'| = 80 KiB) loses X when read "
+                "from a slice and keeps it under every fine reader (c10_band_everywhere_dependent; the 13 loop iterations run symbolically in "
+                "the lengths); witnesses at 81921 / 100000 / 163840 bytes replayed on the real code (corpus) and the family sampled across the "
+                "band in every run. A sync reader whose k-th read() fails (C10/ReadFail.v): the run is the undisturbed run cut at that read "
+                "with the load error (c10_read_error_is_cut), total with callback prefix and never a table from a failed read "
+                "(c10_read_error_total_prefix), spec or load error with complete lines only in the callback for lines < 80 KiB "
+                "(c10_read_error_chunk_independent); compared with the real SymbolFile::parse over a failing reader for every k on small files.",
         "note": "Trusted: Coq kernel; hand-written models (correspondence-checked); buffer contents abstracted to the FIFO contract of "
                 "circular 0.3.0, checked per case; reqwest's Response::chunk() delivering the body's frames in order. Three defects found and "
-                "fixed in /repo (F-C10a, F-C10b, F-C10c). For line lengths strictly inside the 80..160 KiB band chunk dependence is only "
-                "sampled, not proved for every length (both ends are proved). No axioms.",
+                "fixed in /repo (F-C10a, F-C10b, F-C10c). Inside the 80..160 KiB band the outcome under readers whose reads exceed 80 KiB has no "
+                "closed form (it depends on where the full 160 KiB window starts); what is proved is that such reads are the only cause and that "
+                "every length is affected. No axioms.",
     }
     assumptions = ["chunk independence is proved for the line-compositional model; that the real parse_more is line-compositional is what the correspondence run checks",
                    "a reader that returns 0 bytes into a non-empty buffer before the end of the input is outside the schedule model (std::io::Read says 0 = EOF)",
-                   "the input of a parse_async run is what the body delivers before it ends or fails (delivered script = input length)"]
+                   "the input of a parse_async run is what the body delivers before it ends or fails (delivered script = input length)",
+                   "a failing sync reader is one whose k-th read() call returns Err (calls into an empty slice count); fine_sched: a schedule that does not run out before the input does"]
 
     def canon_model(self, case, ans):
         return G.model_part(ans)
@@ -232,7 +245,7 @@ class C10(PropBase):
             return b"\n".join([a, b, a2, x] + tail_lines) + b"\n"
 
         band_lens = [81920, 81921, 100000, 120000, 136533, 136534, 163838, 163839]
-        for i in range(24 if quick else 400):
+        for i in range(24 if quick else 150):
             xlen = band_lens[i] if i < len(band_lens) else rng.range(81920, 163839)
             data = band_file(xlen, good=(i % 5 != 4), more=rng.below(3))
             add("band-family-whole", data)
@@ -323,12 +336,12 @@ class C10(PropBase):
             cases.append("tF%d " % k + G.case(data, sched, tag))
             dist[kind] = dist.get(kind, 0) + 1
 
-        for fno in range(4 if quick else 16):
+        for fno in range(4 if quick else 8):
             pbad = [0, 0, 5][rng.below(3)]
             lines = G.gen_lines(rng, 2 + rng.below(5 if quick else 10), pbad=pbad)
             data = G.join(rng, lines, eol_mode=fno % 3, final_nl=(fno % 4 != 3))
-            if len(data) > (250 if quick else 800):
-                data = data[:(250 if quick else 800)]
+            if len(data) > (250 if quick else 500):
+                data = data[:(250 if quick else 500)]
             n = len(data)
             for k in range(0, 4):
                 add_f("readfail-whole", k, data)
@@ -336,7 +349,7 @@ class C10(PropBase):
                 add_f("readfail-7", k, data, ["7*%d" % (n // 7 + 2)])
             for k in range(0, n + 3):
                 add_f("readfail-trickle", k, data, ["1*%d" % (n + 2)])
-        for i in range(100 if quick else 1200):
+        for i in range(100 if quick else 400):
             lines = G.gen_lines(rng, rng.below(3))
             for _ in range(1 + rng.below(4)):
                 t = rng.choice([G.around(rng, rng.choice([5120, 10240, 20480, 40960, 81920]), 6),
@@ -346,7 +359,7 @@ class C10(PropBase):
                     lines += G.gen_lines(rng, rng.below(3))[1:]
             data = G.join(rng, lines, eol_mode=rng.choice([0, 0, 1]), final_nl=not rng.chance(1, 5))
             add_f("readfail-long", rng.below(40), data, G.sched_random(rng, len(data), style=rng.choice([1, 2, 3, 5, 6])))
-        for i in range(16 if quick else 160):
+        for i in range(16 if quick else 80):
             lines = G.gen_lines(rng, rng.below(3))
             lines.append(G.long_line(rng, G.around(rng, rng.choice([81920, 100000, 163839, 163840, 200000, 400000]), 50)))
             lines += G.gen_lines(rng, rng.below(3))[1:]
